@@ -50,6 +50,18 @@ pub fn cases(rng: &mut Rng, tier: &str) -> (Vec<Case>, bool) {
                         kinds.insert("add-data-zero");
                         continue;
                     }
+                    if rng.chance(1, 10) {
+                        // letters whose upper-case form has another UTF-8 length (dotless i, long s, ligatures, n-apostrophe)
+                        // inside literal text, typed with and without a blank after the number: the body is stored as typed
+                        let k = rng.below(crate::oracles::CASING_BODIES.len()) as u64;
+                        let body = crate::oracles::CASING_BODIES[k as usize];
+                        let op = start(&format!("{}{}{}", num, sep, body));
+                        sess.step(&op);
+                        ops.push(op);
+                        map.insert(num.trim().parse::<u64>().unwrap(), 9_400_000_000 + k);
+                        kinds.insert("add-special-casing");
+                        continue;
+                    }
                     if rng.chance(1, 8) {
                         // a body of statement separators only is a stored line like any other (it is not a deletion)
                         let c = rng.range(1, 3);
